@@ -86,6 +86,9 @@ CHECKS = {
  "C28": dict(cat="exploration", tech="Hypothesis-generated (propagation rule, operator class, data) cases against an independent executable model of the stated propagation rules (pair / fold / single / whole-operand / unchanged / rejected) + row-permutation metamorphic relation",
    text="Aggregate (min max sum avg) and enumerated rule tables (priority chains, random unary/binary tables, with and without default) x 18 operator classes (ds-ds binary, chains and nested forms, unary, ds-scalar, group and whole-dataset aggregation, analytic window, filter/calc/rename, assignment, set operators, inner/left join, no rule) over data with null and conflicting viral values; every determined result datapoint's viral value equals the model, a missing rule is rejected by semantic_analysis, and permuting input rows never changes the result.",
    note="Enumerated group folds are compared exactly only for rule tables that are associative and commutative (brute force over the value closure); null paired with a value under sum/avg, unmatched left_join rows, intersect/setdiff are only checked for order independence; hierarchy and validation operators are not covered.", ref="§3 C28"),
+ "C29": dict(cat="exploration", tech="metamorphic property testing: each generated (template, data) case is run with names differing only in letter case and with really different names (control); outcomes and renamed results must coincide",
+   text="22 script templates (binary, calc, filter, keep, drop, rename, membership, group by / group except, aggr clause, analytic, joins, union, two statements, clause chains, sub, exists_in, if, datapoint ruleset) x 8 collision sites (two input measures, two identifiers, identifier vs measure, two input datasets, two results, result vs input, new component vs existing) over generated data with per-component distinct values.",
+   note="The property is broken at its root on this tree (DuckDB identifiers are case-insensitive): three known findings, one per site class; any other difference from the control (wrong value, missing component, other error) is still a violation.", ref="§3 C29"),
 }
 NOT_YET = "check not built yet in this session (work in progress, see DESIGN.md §5)"
 
